@@ -444,6 +444,14 @@ func (w *World) StepC05(op Op, cls Class, err error, b, a *Snap) *Finding {
 		if new(big.Rat).Add(r, tol).Cmp(ratOfDec(tc.Liq)) < 0 {
 			return &Finding{"ratio-gate", op.Kind + "-leaves-cdp-below-liquidation-ratio", fmt.Sprintf("ratio %s < %s", r.FloatString(24), tc.Liq)}
 		}
+		// the same at the 18-decimal collateralization ratio the queries report
+		if dr, ok := decRatio(c.Coll, tc.CF, debt, cfg.DebtCF, sdk.NewDecFromBigIntWithPrec(b.Price[tc.Spot], 18)); !ok || dr.LT(decOf(tc.Liq)) {
+			return &Finding{"ratio-gate", op.Kind + "-leaves-cdp-below-liquidation-ratio", fmt.Sprintf("18-decimal ratio %s < %s", dr, tc.Liq)}
+		}
+		if op.Kind == "draw" && !b.Status[tc.LiqM] {
+			// create, deposit and withdraw are refused while the liquidation-market feed is down; draw is not
+			return &Finding{"pricefeed-gate", "draw-while-liquidation-feed-down", fmt.Sprintf("status spot=%v liquidation=%v", b.Status[tc.Spot], b.Status[tc.LiqM])}
+		}
 		return nil
 	case "liquidate":
 		if !inT {
@@ -460,6 +468,9 @@ func (w *World) StepC05(op Op, cls Class, err error, b, a *Snap) *Finding {
 		tol := ratTol(new(big.Rat).Quo(ulp, dBase), ulp, ulp)
 		if r == nil || new(big.Rat).Sub(r, tol).Cmp(ratOfDec(tc.Liq)) >= 0 {
 			return &Finding{"keeper-liquidation-only-below-ratio", "keeper-seized-at-or-above-ratio", fmt.Sprintf("ratio %v >= %s", r, tc.Liq)}
+		}
+		if dr, ok := decRatio(c.Coll, tc.CF, debt, cfg.DebtCF, sdk.NewDecFromBigIntWithPrec(b.Price[tc.LiqM], 18)); !ok || dr.GTE(decOf(tc.Liq)) {
+			return &Finding{"keeper-liquidation-only-below-ratio", "keeper-seized-at-or-above-ratio", fmt.Sprintf("18-decimal ratio %s >= %s", dr, tc.Liq)}
 		}
 		// keeper reward
 		reward := sdk.NewDecFromBigInt(c.Coll).Mul(decOf(tc.Reward)).RoundInt().BigInt()
